@@ -40,16 +40,16 @@ def decVal (ds : Str) : Nat := ds.foldl (fun a c => a * 10 + (c - 48)) 0
 /-- `"bytes="` -/
 def bytesEq : Str := [98, 121, 116, 101, 115, 61]
 
-/-- `re.findall(r"^bytes=(\d*)-(\d*)$", s, re.ASCII)[0]`; `none` = IndexError.
-`$` also matches just before one trailing `\n`. -/
+/-- after `bytes=` and the first digit run `d1`: `-(\d*)$` (`$` also matches just before one
+trailing `\n`) -/
+def matchTail (d1 : Str) : Str → Option (Str × Str)
+  | 45 :: r2 =>
+    if (spanDigits r2).2 = [] ∨ (spanDigits r2).2 = [10] then some (d1, (spanDigits r2).1) else none
+  | _ => none
+
+/-- `re.findall(r"^bytes=(\d*)-(\d*)$", s, re.ASCII)[0]`; `none` = IndexError. -/
 def matchRange (s : Str) : Option (Str × Str) :=
-  if s.take 6 = bytesEq then
-    match (spanDigits (s.drop 6)).2 with
-    | 45 :: r2 =>
-      if (spanDigits r2).2 = [] ∨ (spanDigits r2).2 = [10]
-      then some ((spanDigits (s.drop 6)).1, (spanDigits r2).1) else none
-    | _ => none
-  else none
+  if s.take 6 = bytesEq then matchTail (spanDigits (s.drop 6)).1 (spanDigits (s.drop 6)).2 else none
 
 /-- `int(ds)` on a non-empty ASCII digit string: `ValueError` when longer than
 `sys.get_int_max_str_digits()` (leading zeros count) -/
@@ -227,20 +227,21 @@ deriving Repr, DecidableEq
 
 def allDigits (s : Str) : Bool := s.all isDig
 
+/-- `first-pos "-" [ last-pos ] / "-" suffix-length` once the text is cut at the first `-` -/
+def specOf (a : Str) : Str → Option RangeSpec
+  | 45 :: b =>
+    if allDigits a && allDigits b then
+      if a.isEmpty then (if b.isEmpty then none else some (.suffix (decVal b)))
+      else if b.isEmpty then some (.fromOn (decVal a))
+      else if decVal a ≤ decVal b then some (.fromTo (decVal a) (decVal b)) else none
+    else none
+  | _ => none
+
 /-- `ranges-specifier = "bytes=" ( first-pos "-" [ last-pos ] / "-" suffix-length )`
 with `first-pos ≤ last-pos`; exactly one range; `none` = not of this form -/
 def parseSpec (s : Str) : Option RangeSpec :=
   if s.take 6 = bytesEq then
-    let body := s.drop 6
-    let a := body.takeWhile (· != 45)
-    match body.drop a.length with
-    | 45 :: b =>
-      if allDigits a && allDigits b then
-        if a.isEmpty then (if b.isEmpty then none else some (.suffix (decVal b)))
-        else if b.isEmpty then some (.fromOn (decVal a))
-        else if decVal a ≤ decVal b then some (.fromTo (decVal a) (decVal b)) else none
-      else none
-    | _ => none
+    specOf ((s.drop 6).takeWhile (· != 45)) ((s.drop 6).drop ((s.drop 6).takeWhile (· != 45)).length)
   else none
 
 /-- the byte positions (first, last — inclusive) selected from a representation of `size`
